@@ -94,6 +94,14 @@ def jobs(tier, seed):
                         o["paths"][u] = list(popt) if u in tops else list(PATH_OPTIONS[(pi + 1 + len(u)) % len(PATH_OPTIONS)])
                     out.append({"harness": "general_mirrors", "params": {"shape": shape, "opts": o, "focus": C04._focus(shape, o, k), "main_variant": mv,
                                                                        "float_timestamp": [None, None, 1400000000.75, None, -2.5][k % 5]}})
+    # extra platforms that have no image table while other platforms have one ([general] platforms follows [tree], not the image tables)
+    for si, shape in enumerate(("single", "two-top")):
+        for arch in ("x86_64", "src"):
+            o = C04._opts(shape, 0)
+            o["arch"] = arch
+            o["platforms"] = ["xen", "ppc64le"]
+            o["images"] = {arch: ["boot.iso"]} if arch != "src" else {"xen": ["kernel"]}
+            out.append({"harness": "general_mirrors", "params": {"shape": shape, "opts": o, "focus": C04._focus(shape, o, si), "main_variant": None, "float_timestamp": None}})
     return out
 
 
